@@ -40,6 +40,7 @@ type spec struct {
 		SelMap     map[string]selRule `json:"selmap"`     // extra / overriding selector rules, by import path
 		KeepMaps   bool               `json:"keep_maps"`  // do not sort map ranges
 		SkipFiles  []string           `json:"skip_files"` // rel paths left untouched
+		FileSelMap map[string]map[string]selRule `json:"file_selmap"` // extra selector rules for single files (rel path -> import path -> rule)
 	} `json:"opts"`
 }
 
@@ -504,7 +505,17 @@ func main() {
 			if skip[rel] {
 				continue
 			}
-			x := &xf{fset: fset, info: p.TypesInfo, file: f, rules: rules, need: map[string]string{}, sp: &sp, rel: rel}
+			frules := rules
+			if extra, ok := sp.Opts.FileSelMap[rel]; ok {
+				frules = map[string]selRule{}
+				for k, v := range rules {
+					frules[k] = v
+				}
+				for k, v := range extra {
+					frules[k] = v
+				}
+			}
+			x := &xf{fset: fset, info: p.TypesInfo, file: f, rules: frules, need: map[string]string{}, sp: &sp, rel: rel}
 			x.apply()
 			var names []string
 			for path := range x.need {
@@ -532,7 +543,7 @@ func main() {
 				if imp.Name != nil && (imp.Name.Name == "_" || imp.Name.Name == ".") {
 					continue
 				}
-				if _, redirected := rules[path]; !redirected && path != "runtime" {
+				if _, redirected := frules[path]; !redirected && path != "runtime" {
 					continue
 				}
 				if !stillUsed[path] {
